@@ -14,7 +14,7 @@ from hgsim.util import canon, digest, mix
 
 ID = "C03"
 LEVEL = "exploration"
-BUDGET = {"quick": (8, 260, 45), "thorough": (16, 18000, 600)}
+BUDGET = {"quick": (8, 650, 90), "thorough": (16, 18000, 600)}
 RULE = (
     "seeded programs dense in gates: if/else and multi-way route gates (single/multi target, fallback, None, END), open and closed by default, "
     "several gates sharing a target, gates fed by slow upstream values, gates inside ring loops and nested graphs; both runners, async under "
